@@ -1119,7 +1119,7 @@ pub trait QueryBuilder:
             Value::Double(Some(v)) => write!(s, "{v}").unwrap(),
             Value::String(Some(v)) => self.write_string_quoted(v, &mut s),
             Value::Char(Some(v)) => {
-                self.write_string_quoted(std::str::from_utf8(&[*v as u8]).unwrap(), &mut s)
+                self.write_string_quoted(v.encode_utf8(&mut [0u8; 4]), &mut s)
             }
             Value::Bytes(Some(v)) => self.write_bytes(v, &mut s),
             #[cfg(feature = "with-json")]
